@@ -250,7 +250,7 @@ func c06Worker(args []string) error {
 					mu.Unlock()
 				}
 
-				for round := 0; round < 60; round++ {
+				for round := 0; round < 250; round++ {
 					sess := uint64(5000 + round)
 					rec(0, "alloc", sess)
 
